@@ -16,6 +16,7 @@ from rsocket.rsocket_client import RSocketClient
 ALLOWED = allowed('C17')
 CAUSE = part('cause', 0)          # 0 server EOF, 1 transport error, 2 keep-alive time-out, 3 explicit reconnect while healthy
 ROUNDS = part('rounds', 1)
+IDLE_MAX = part('idle_max', 2500000)
 PEND = part('pend', None)          # optional partition: [pending request-response?, pending stream?, when]
 P_US = 1000000
 L_US = 3000000
@@ -67,7 +68,7 @@ def c_reconnect(pend_rr: bool, pend_rs: bool, when: int, idle_us: int, settle_us
     from 1, keep-alives flow again (at k*P of the new connection), and a request issued afterwards is answered.
 
     pre: 0 <= when <= 1 and (PEND is None or (pend_rr == PEND[0] and pend_rs == PEND[1] and when == PEND[2]))
-    pre: 0 <= idle_us <= 2500000 and 0 <= settle_us <= 2500000 and 0 <= idle2_us <= 2500000
+    pre: 0 <= idle_us <= IDLE_MAX and 0 <= settle_us <= IDLE_MAX and 0 <= idle2_us <= IDLE_MAX
     post: _ in ALLOWED
     """
     when = conc(when, 0, 1)
